@@ -116,7 +116,9 @@ Definition c06_oracle (sc : scenario) (o : observation) : option bool :=
   else
     (* cold sources only below handle 0, and none below connectables *)
     let others_cold := existsb (fun k => match pipe_of sc k with Some p => colds_in p | None => false end) (seq 1 (sc_handles sc - 1)) in
-    let conns_cold := existsb (fun kp : ckind * pipe => colds_in (snd kp)) (sc_conns sc) in
+    (* a cold source below ref_count / replay is stopped when the only subscriber leaves; below publish it belongs to the connection *)
+    let conns_cold := existsb (fun kp : ckind * pipe => colds_in (snd kp) &&
+                                 match fst kp with CPublish => true | _ => negb (Nat.eqb (sc_handles sc) 1) end) (sc_conns sc) in
     if others_cold || conns_cold then None
     else
       let '(pos_end, act_end) := end_marks sc o 0 in
@@ -130,7 +132,8 @@ Definition c06_oracle (sc : scenario) (o : observation) : option bool :=
       let counts_ok :=
         match rev (ob_snaps o) with
         | (_, flags, counts) :: _ =>
-            if all_ended flags && forallb (fun k => match sub_at sc k with Some _ => true | None => true end) (seq 0 (sc_handles sc))
+            (* a publish connection is a subscription of its own: it legitimately keeps the source's observer *)
+            if all_ended flags && negb (existsb (fun a => match a with DConnect _ _ => true | _ => false end) (sc_script sc))
             then forallb (fun n => Nat.eqb n 0) counts else true
         | [] => true
         end in
